@@ -150,7 +150,7 @@ def pipeline_cfg(kinds, *, first_suffix=False, bad=None, overrides=None, suffix_
 
 
 def make_cv(costs, *, dmin, subpix=1, type_measure="min", window_size=1, vm=None, conf=None, row0=0, col0=0,
-            cmax=100, measure="sad") -> xr.Dataset:
+            cmax=100, measure="sad", conf_dtype=np.float32) -> xr.Dataset:
     """A cost-volume dataset shaped like the output of the matching_cost step.
     costs: (row, col, nd) float array; samples are dmin + k/subpix; conf: (names, (row, col, n) array)."""
     costs = np.asarray(costs, dtype=np.float32)
@@ -163,7 +163,7 @@ def make_cv(costs, *, dmin, subpix=1, type_measure="min", window_size=1, vm=None
     if conf is not None:
         names, arr = conf
         cv.coords["indicator"] = list(names)
-        cv["confidence_measure"] = xr.DataArray(np.asarray(arr, dtype=np.float32).copy(), dims=["row", "col", "indicator"])
+        cv["confidence_measure"] = xr.DataArray(np.asarray(arr, dtype=conf_dtype).copy(), dims=["row", "col", "indicator"])
     cv.attrs.update({"crs": None, "transform": None, "valid_pixels": 0, "no_data_mask": 1, "no_data_img": -9999,
                      "window_size": window_size, "subpixel": subpix, "band_correl": None,
                      "offset_row_col": int((window_size - 1) / 2), "measure": measure, "type_measure": type_measure,
